@@ -12,7 +12,7 @@ def main():
         checks.append(dict(property_id=pid, quick_cmd='./check %s --tier quick' % pid, thorough_cmd='./check %s --tier thorough' % pid,
                            evidence_file='/verif/evidence/%s.json' % pid, replay_cmd_template='./check %s --replay {path}' % pid,
                            engine='vx', level_claimed=dict(category=s.get('level', 'proof'), text=s.get('level_text', ''), design_ref=s.get('design_ref', 'DESIGN.md section 5, ' + pid)),
-                           level_note=s.get('level_note', ''), technique=s.get('technique', 'contract-based deductive verification: Verus 0.2026.09.13 on the mechanically extracted real source (units %s)%s' % (', '.join(s.get('units', [])), '; bounded differential stand-in for describe()' if s.get('always_bounded') else ''))))
+                           level_note=s.get('level_note', ''), technique=s.get('technique', 'contract-based deductive verification: Verus 0.2026.09.13 on the mechanically extracted real source (units %s)%s' % (', '.join(s.get('units', [])), ('; always-on bounded differential stand-in (never counted as proved) for: ' + s['always_bounded']['function']) if s.get('always_bounded') else ''))))
     na = [dict(property_id=pid, reason=P.NOT_APPLICABLE.get(pid, 'not yet built; see DESIGN.md')) for pid in ids if pid not in P.PROPS]
     m = dict(version=1, setup_cmd='./setup.sh',
              hooks=dict(guard='ashyanspada_expression_engine_rs_verif',
